@@ -12,6 +12,9 @@ from . import common_norm as NM
 
 def run(ctx):
     n = NM.Norm(ctx)
+    # "the path is the input's resolved path": the resolver against the RFC 3986 reference
+    ctx.fn("ural.utils.normpath")
+    U.normpath_table(ctx, "R11", 5 if ctx.tier == "thorough" else 4)
     whole_label(ctx, "R1")
     option_ownership(ctx, "R2", n)
     deletion_only(ctx, "R3", n)
